@@ -60,6 +60,9 @@ class SLock:
         self.ctx = ctx
         self.held = False
 
+    def __len__(self):
+        return 0             # a lock that is falsy while nobody waits for it (its length is its queue): a lock all the same
+
     async def __aenter__(self):
         await self.ctx.suspend(("lock-enter",))
         self.held = True
@@ -101,7 +104,9 @@ def scenarios(ctx, sync=False):
         y = await a.anext(t[1])
         z = await a.anext(t[1])
         await t.aclose()
-        return x is y and z is items[1]
+        # the lock the user supplied is the lock that is used (its suspensions reach the loop), falsy or not
+        used = lock is None or builtins.any(tok[2] == ("lock-enter",) for tok in getattr(ctx, "issued", []))
+        return x is y and z is items[1] and used
     out["tee"] = tee_locked
 
     async def lru():
